@@ -3,7 +3,7 @@
 //! `crux_http::Http`) inside a real `AppTester`, resolves the single HTTP effect with a generated
 //! `HttpResult`, and prints the events the app received (or the panic) as one JSON line per case,
 //! together with the oracle data (Mime charset, encoding_rs decode, serde_json) the Coq model consumes.
-//!   httpresp_c15 <seed> <count> [sweep|nosweep]
+//!   httpresp_c15 <seed> <count> [sweep|nosweep] [inputs.jsonl]
 //! `sweep` (default) first prints the exhaustive status sweep 0..=65535 for both APIs.
 #[path = "httpresp_util/mod.rs"]
 mod util;
@@ -241,6 +241,26 @@ fn main() {
                 let o = run(api, 0, HttpResult::Ok(mk_response(status, &hs, &body)));
                 println!("{}", json!({"k": "sweep", "api": api, "status": status, "impl": o}));
             }
+        }
+    }
+
+    // inputs given explicitly (corpus, shrinking candidates): run first, printed like generated cases
+    if let Some(path) = args.get(4) {
+        for line in std::fs::read_to_string(path).unwrap_or_default().lines() {
+            let Ok(v) = serde_json::from_str::<Value>(line) else { continue };
+            let api = v["api"].as_u64().unwrap_or(0) as u8;
+            let exp = v["exp"].as_u64().unwrap_or(0) as u8;
+            let r = &v["result"];
+            let (result, oracle) = if r["t"] == "ok" {
+                let (status, hs, body) = response_parts(r);
+                let o = oracle_block(&hs, &body);
+                (HttpResult::Ok(mk_response(status, &hs, &body)), o)
+            } else {
+                (HttpResult::Err(error_from_json(r)), json!({"mime": [], "decode": [], "json": {"err": ""}}))
+            };
+            let inp = in_result(&result);
+            let o = run(api, exp, result);
+            println!("{}", json!({"k": "case", "corpus": true, "name": v["name"], "api": api, "exp": exp, "malformed": false, "result": inp, "oracle": oracle, "impl": o}));
         }
     }
 
